@@ -8,8 +8,9 @@ kproof! {
     /// K04a: every hash function agrees with the reference build on every 4-byte input
     /// (the hash decides which chain a position lands in, hence every predicted match)
     fn k04a_hash_equiv() {
+        // shift/xor/table hashes; the multiplicative ones are in k04a_hash_equiv_mul (a 32-bit multiplier miter is slow)
         let alg: u8 = kani::any();
-        kani::assume(alg >= 1 && alg <= 8);
+        kani::assume(alg == 1 || alg == 2 || alg == 6 || alg == 7);
         let mask: u16 = kani::any();
         let shift: u32 = kani::any();
         kani::assume(shift <= 15);
@@ -18,5 +19,16 @@ kproof! {
         assert!(super::verif_export::hash_bytes(alg) == refx::hash_bytes(alg));
         kani::cover!(alg == 7, "crc32c");
         kani::cover!(alg == 1 && shift == 5 && mask == 0x7fff, "zlib default");
+    }
+}
+kproof! {
+    /// K04a-mul: the multiplicative hashes (libdeflate 4-byte, its fast variant, its secondary 3-byte hash, zlib-ng)
+    fn k04a_hash_equiv_mul() {
+        let alg: u8 = kani::any();
+        kani::assume(alg == 3 || alg == 4 || alg == 5 || alg == 8);
+        let b: [u8; 4] = kani::any();
+        assert!(super::verif_export::hash_of(alg, 0, 0, &b) == refx::hash_of(alg, 0, 0, &b), "hash function differs from the reference build");
+        assert!(super::verif_export::hash_bytes(alg) == refx::hash_bytes(alg));
+        kani::cover!(alg == 5, "zlib-ng");
     }
 }
